@@ -460,11 +460,13 @@ Proof.
   cbn [fx_pays In] in Hp. destruct Hp as [<-|Hp]; [destruct w; (eexists; split; [reflexivity|discriminate])|]. apply (IH _ Hp).
 Qed.
 
-Lemma cst_rows : forall ta off, forallb cst_okb ta = true -> forall p, In p (cst_pays h off ta) -> exists row, opInfo (y_info p) = Some row /\ y_op p <> opFreed.
+Lemma cst_rows : forall ta off, forallb targ_okb ta = true -> forall p, In p (cst_pays h tbl off ta) -> exists row, opInfo (y_info p) = Some row /\ y_op p <> opFreed.
 Proof.
   induction ta as [|d r IH]; intros off Hok p Hp; [contradiction|]. cbn [forallb] in Hok. apply andb_prop in Hok. destruct Hok as [Hd Hok].
-  unfold cst_okb in Hd. apply andb_prop in Hd. destruct Hd as [Hc _].
-  cbn [cst_pays In] in Hp. destruct Hp as [<-|Hp]; [apply const_row'; exact Hc|apply (IH _ Hok _ Hp)].
+  cbn [cst_pays In] in Hp. destruct Hp as [<-|Hp]; [|apply (IH _ Hok _ Hp)].
+  destruct d as [d|b]; cbn [targ_okb targ_pay] in *.
+  - unfold cst_okb in Hd. apply andb_prop in Hd. destruct Hd as [Hc _]. apply const_row'; exact Hc.
+  - eexists. split; [reflexivity|discriminate].
 Qed.
 
 Lemma seqN_app b m n : seqN b (m + n) = seqN b m ++ seqN (b + N.of_nat m) n.
@@ -548,7 +550,7 @@ Lemma post2_leaf g pl g1 pl1 g' x b off lk seg fa ta rest pre post B' off' :
   Post2 g pl g1 pl1 x B' (iszs rest) (pre ++ b :: seqN ci nt) post (lay2 h tbl B' off' rest) ->
   pget pl1 b = Some (lf_pay h lk off name_zero) ->
   (forall i p, nth_error (lhd_pays h tbl lk off fa) i = Some p -> pget pl1 (b + 1 + N.of_nat i) = Some p /\ kids g1 (b + 1 + N.of_nat i) = []) ->
-  (forall i p, nth_error (cst_pays h (ta_off lk off fa) ta) i = Some p -> pget pl1 (ci + N.of_nat i) = Some p /\ kids g1 (ci + N.of_nat i) = []) ->
+  (forall i p, nth_error (cst_pays h tbl (ta_off lk off fa) ta) i = Some p -> pget pl1 (ci + N.of_nat i) = Some p /\ kids g1 (ci + N.of_nat i) = []) ->
   (forall y, kids g' y = if y =? b then seqN (b + 1) (S nf) ++ seqN ci nt
                          else if y =? x then pre ++ b :: (map ridx (lay2 h tbl B' off' rest) ++ post) else kids g1 y) ->
   Post2 g pl g' (pupd pl1 b (ys_name (seg_nm seg))) x b (2 + nf + nt + iszs rest) pre post
@@ -556,7 +558,7 @@ Lemma post2_leaf g pl g1 pl1 g' x b off lk seg fa ta rest pre post B' off' :
 Proof.
   intros nf nt ci HB' Hrange [Q1 Q2 Q3 Q4] PN1 Hrow1 Hcrow1 Hk'.
   set (pl3 := pupd pl1 b (ys_name (seg_nm seg))).
-  set (hdp := lhd_pays h tbl lk off fa) in *. set (cs := cst_pays h (ta_off lk off fa) ta) in *.
+  set (hdp := lhd_pays h tbl lk off fa) in *. set (cs := cst_pays h tbl (ta_off lk off fa) ta) in *.
   assert (Hlh : length hdp = S nf) by apply len_lhd_pays.
   assert (Hlc : length cs = nt) by apply len_cst_pays.
   assert (Hxb : x <> b) by lia.
@@ -595,7 +597,7 @@ Proof.
   set (l := lfx lk fa) in *. set (nf := length l) in *. set (lo := llo lk) in *. set (nt := length ta) in *.
   assert (Hm : nlf lk fa = N.of_nat nf) by reflexivity. rewrite Hm in *.
   assert (Hnfw : nf = length (lk_ws lk)) by (unfold nf, l, lfx; rewrite combine_length; lia).
-  set (hdp := lhd_pays h tbl lk off fa) in *. set (cs := cst_pays h (ta_off lk off fa) ta) in *.
+  set (hdp := lhd_pays h tbl lk off fa) in *. set (cs := cst_pays h tbl (ta_off lk off fa) ta) in *.
   assert (Hlh : length hdp = S nf) by apply len_lhd_pays.
   assert (Hlc : length cs = nt) by apply len_cst_pays.
   set (ci := b + 2 + N.of_nat nf) in *.
